@@ -151,6 +151,10 @@ def weave(item, ext):
             if '/*@SIG@*/' not in text:
                 raise Undecided("lost anchor: %s: no signature marker" % what)
             text = text.replace('/*@SIG@*/', '\n' + body + '\n', 1)
+        elif kind == 'begin':
+            if '/*@BEGIN@*/' not in text:
+                raise Undecided("lost anchor: %s: no begin marker" % what)
+            text = text.replace('/*@BEGIN@*/', '\n' + body + '\n', 1)
         elif kind == 'end':
             if '/*@END@*/' not in text:
                 raise Undecided("lost anchor: %s: no end marker" % what)
